@@ -173,6 +173,45 @@ func raceRun(en *Env, i int, stats map[string]int) {
 		}()
 		stats["bgmerge_runs"]++
 	}
+	if i%2 == 1 {
+		// a stampede: several Merge calls and writers queue behind an open batch (it holds the database lock) and
+		// are let go together when it commits - at most one Merge may run, the others answer "in progress"
+		wg.Add(1)
+		go func() {
+			defer wg.Done()
+			cr := rand.New(rand.NewSource(int64(i) * 7919))
+			for round := 0; round < 3; round++ {
+				b := db.NewBatch(kv.BatchOptions{})
+				var w2 sync.WaitGroup
+				for m := 0; m < 3; m++ {
+					w2.Add(1)
+					go func() {
+						defer w2.Done()
+						lg.add("Merge", guardName(func() error { return db.Merge() }))
+					}()
+				}
+				for m := 0; m < 2; m++ {
+					w2.Add(1)
+					key := u.Key(1 + cr.Intn(nkeys))
+					val := mkval(cr)
+					go func() {
+						defer w2.Done()
+						lg.add("Put", guardName(func() error { return db.Put(key, val) }))
+					}()
+				}
+				time.Sleep(2 * time.Millisecond) // (they are all waiting for the lock now - or will be; either is a legal schedule)
+				lg.add("Batch", guardName(func() error {
+					if err := b.Put(u.Key(1+cr.Intn(nkeys)), mkval(cr)); err != nil {
+						b.Commit()
+						return err
+					}
+					return b.Commit()
+				}))
+				w2.Wait()
+			}
+		}()
+		stats["stampedes"]++
+	}
 	done := make(chan struct{})
 	go func() { wg.Wait(); close(done) }()
 	stuck := false
@@ -196,5 +235,30 @@ func raceRun(en *Env, i int, stats map[string]int) {
 	if stuck {
 		h.ExitIfStuck("stuck", en.T)
 	}
-	guardName(func() error { return db.Close() })
+	cl := guardName(func() error { return db.Close() })
+	en.T.Emit(h.Ev{"ev": "cop", "op": "Close", "err": cl})
+	if bg {
+		return // (the engine's background goroutine may still be inside a Merge when Close runs: not one of the listed calls)
+	}
+	// the restart adopts whatever merge was completed: Open and every read must succeed
+	var db2 *kv.DB
+	on := guardName(func() error {
+		var err error
+		db2, err = kv.Open(opts2(opts))
+		return err
+	})
+	en.T.Emit(h.Ev{"ev": "cop", "op": "Open", "err": on})
+	if on == "ok" {
+		for k := 1; k <= nkeys; k++ {
+			key := u.Key(k)
+			en.T.Emit(h.Ev{"ev": "cop", "op": "Get", "err": guardName(func() error { _, err := db2.Get(key); return err })})
+		}
+		en.T.Emit(h.Ev{"ev": "cop", "op": "Fold", "err": guardName(func() error { return db2.Fold(func(k, v []byte) bool { return true }) })})
+		guardName(func() error { return db2.Close() })
+	}
+}
+
+func opts2(o kv.Options) kv.Options {
+	o.EnableBackgroundMerge = false
+	return o
 }
